@@ -310,3 +310,37 @@ def compare(im, mo):
         if im[k] != mm[k]:
             return f"{k}: impl={im[k]} model={mm[k]}"
     return None
+
+
+# ------------------------------------------------------------------ batch runner shared by C01/C02/C09/C17
+
+MODULE_CLASSES = ("Cls", "Bare", "NT", "WithStatic")
+
+
+class Case:
+    __slots__ = ("module_src", "name", "fn", "fn_src", "im", "events", "mo", "diff")
+
+
+def run_batch(rng, n_modules, model, hostile=0.015, extra_sources=()):
+    """Generate modules, run the real FunctionAnalyser and the Lean model on every function."""
+    from props import bodygen
+
+    cases, reqs = [], []
+    sources = list(extra_sources)
+    for _ in range(n_modules):
+        sources.append(bodygen.gen_module(rng, hostile=hostile))
+    for src, names in sources:
+        for name in names:
+            tree, ctx = prepare(src)
+            fn = next(n for n in tree.body if isinstance(n, (ast.FunctionDef, ast.AsyncFunctionDef)) and n.name == name)
+            c = Case()
+            c.module_src, c.name, c.fn = src, name, fn
+            c.fn_src = ast.unparse(fn)
+            reqs.append(model_request(fn, ctx))
+            c.im, c.events = analyse_function(fn, ctx)
+            cases.append(c)
+    outs = model.batch(reqs)
+    for c, mo in zip(cases, outs):
+        c.mo = mo
+        c.diff = "model error: " + str(mo["__error__"]) if "__error__" in mo else compare(c.im, mo)
+    return cases
